@@ -320,6 +320,19 @@ def w_align(ctx, rng, i):
                 own = Delaunay(tg.points).simplices.astype(np.int64)
                 own = own[rng.permutation(len(own))][:, rng.permutation(3)]
                 tg = ms.TriMesh(tg.points, trilist=own)
+            if hasattr(s, "trilist"):
+                # (a source "mesh" one of whose vertices lies inside a triangle it is not a corner of is no triangulation: the
+                # edge flip above can produce one in rare configurations - such cases are not driven)
+                from vf import refmap as _rm7
+                sp7, tl7 = np.asarray(s.points, dtype=float), np.asarray(s.trilist)
+                w7 = _rm7.barycentric(sp7, tl7, sp7)                      # (n_pts, n_tris, 3)
+                inside7 = np.nan_to_num(w7.min(-1), nan=-1.0, neginf=-1.0) > 1e-9
+                corner7 = np.zeros_like(inside7)
+                for k7, tri7 in enumerate(tl7):
+                    corner7[tri7, k7] = True
+                if (inside7 & ~corner7).any():
+                    ctx.count_case((kind, d, "overlapping_source_triangles"), nontrivial=False)
+                    return
             t = cls(s, tg)
         # retarget once: the same judges run at the end of set_target
         new = t.target.copy()
